@@ -110,11 +110,12 @@ def true_extent_curve(center, radius_fn, a0, a1, n=3600):
 
 def main():
     ck = Check('C09')
-    ck.build_theories(['theories/Props/C09.vo', 'theories/Props/C09b.vo', 'theories/Corr/BoundsK.vo'])
+    ck.build_theories(['theories/Props/C09.vo', 'theories/Props/C09b.vo', 'theories/Props/C09c.vo', 'theories/Corr/BoundsK.vo'])
     rep = gen_bounds.main(REPO, os.path.join(ck.rundir, 'BoundsGen.v'))   # bounds / rectangles / circles regenerated from the source ...
     ck.gen('BoundsGen.v', rep, 'BoundsGenEq.v')                           # ... proved equal to BoundsM / ShapeM.multi_bounds for all arguments
     ck.props('Props/C09.v')
     ck.props('Props/C09b.v')      # D10 refuted with the real haversine of C07 (Reals + Interval)
+    ck.props('Props/C09c.v')      # the 1% clause for circles, full rings and ellipses (over the reals)
     rng = ck.rng
     cases, meta, nontriv = [], [], set()
     prop_viol = []
